@@ -228,6 +228,25 @@ BestFilteredClauses(T, prev, ev, post) ==
       \cup If(PositiveDurations(I) /\ ev.bfilt \in {<<>>, <<"dom">>}
               /\ ~(\E i \in DOMAIN ev.leaves : ev.leaves[i] = opt), {Tag("C08:optimum-lost", ev.bfilt)})
 
+(* --- C03: the CP-SAT solver (a black box judged by its results) ------------ *)
+CpSatClauses(T, prev, ev, post) ==
+    LET I == T.inst IN
+    IF ev.out = "exc:NoSolutionFoundError"
+    THEN If(ev.mode # "timelimit", {C("C03:no-solution-without-time-limit")})
+    ELSE IF ev.out # "ok" THEN {Tag("C03:cpsat-raised", <<ev.mode, ev.out>>)}
+    ELSE   If(~Feasible(I, ev.sched), {Tag("C03:infeasible", ev.mode)})
+      \cup If(~Complete(I, ev.sched), {Tag("C03:incomplete", ev.mode)})
+      \cup If(ev.makespan # MakespanDef(I, ev.sched), {C("C03:reported-makespan")})
+      \cup If(ev.status \notin {"optimal", "feasible"}, {C("C03:status")})
+      \cup If(ev.solved_by # "ORToolsSolver", {C("C03:solved-by")})
+      \cup If(ev.elapsed_sign < 0, {C("C03:negative-elapsed-time")})
+      \cup If(Feasible(I, ev.sched) /\ Complete(I, ev.sched) /\ MakespanDef(I, ev.sched) < LowerBound(I), {C("C03:below-lower-bound")})
+      \cup If(ev.lb > 0 /\ ev.makespan < ev.lb, {C("C03:below-benchmark-bound")})
+      \cup If(ev.status = "optimal" /\ ev.ub > 0 /\ ev.makespan > ev.ub, {C("C03:above-benchmark-optimum")})
+      \cup If(ev.status = "optimal" /\ \E i \in DOMAIN ev.rule_mks : ev.makespan > ev.rule_mks[i], {C("C03:above-rule-result")})
+      \cup If(ev.status = "optimal" /\ ev.small /\ MakespanDef(I, ev.sched) # Opt(I), {Tag("C03:not-optimal", ev.mode)})
+      \cup If(post.core # prev.core, {C("C03:changed-caller-state")})
+
 KindsOf(kinds, subs) == [i \in DOMAIN subs |-> IF subs[i] = 0 THEN "other" ELSE kinds[subs[i]]]
 
 CreateClauses(T, prev, ev, post) ==
@@ -265,6 +284,7 @@ DClauses(T, l, prev, post) ==
            [] ev.a = "ScoreRule"   -> ScoreRuleClauses(T, prev, ev, post)
            [] ev.a = "SolverCall"  -> SolverCallClauses(T, prev, ev, post)
            [] ev.a = "BestFiltered" -> BestFilteredClauses(T, prev, ev, post)
+           [] ev.a = "CpSat"       -> CpSatClauses(T, prev, ev, post)
            [] ev.a = "Replay"      -> ReplayClauses(T, prev, ev, post)
            [] ev.a = "Create"      -> CreateClauses(T, prev, ev, post)
            [] ev.a = "Unsub"       -> UnsubClauses(T, prev, ev, post)
